@@ -462,13 +462,13 @@ type evSpec struct {
 }
 
 type fieldSpec struct {
-	key  string
-	kind string // any, object, frommap
-	cs   *encCase
-	sub  []fieldSpec          // object members
-	m    map[string]*encCase  // map-sourced
-	shared *MapV              // map-sourced from this very map object (kept across events)
-	w    want
+	key    string
+	kind   string // any, object, frommap
+	cs     *encCase
+	sub    []fieldSpec         // object members
+	m      map[string]*encCase // map-sourced
+	shared *MapV               // map-sourced from this very map object (kept across events)
+	w      want
 }
 
 func (w *encWorld) mkField(ip *Interp, fs fieldSpec) (AV, error) {
